@@ -1,14 +1,16 @@
-// The same channel value subscribed twice to one Feed (two feedSubs, one channel):
-// not covered by the LTS (FeedLTS.step rejects a second Subscribe of a channel id),
-// so this part is black-box only.  Statement checked: a completed Send delivers to
-// the channel as many copies as it has subscriptions that were made before the call
-// and not unsubscribed before the return (at least), and never more copies than
-// subscriptions that existed at some time during the call; nsent = total copies.
+// The same channel value subscribed twice to one Feed (two feedSubs, one channel).
+// FeedLTS rejects this; DupLTS (coq/Feed/DupLTS.v) models it: the traces of these
+// schedules must be paths of DupLTS, and the black-box statement is the one DupLTS
+// proves: a completed Send delivers to the channel at least as many copies as it has
+// subscriptions that were made before the call and whose Unsubscribe was not called
+// before the return, never more copies than subscriptions that existed at some time
+// during the call, and nsent = total number of copies.
 package main
 
 import (
 	"fmt"
 	"runtime"
+	"strings"
 	"sync"
 	"time"
 
@@ -16,66 +18,109 @@ import (
 	"gitlab.com/aquachain/aquachain/verifharness/vh"
 )
 
-func dupPart(c *vh.Ctx) {
-	n := c.Scale(300, 6000)
+const watchdogDup = 3 * time.Second
+
+type dupSched struct {
+	Seed    uint64 `json:"seed"`
+	Cap     int    `json:"cap"`      // capacity of the twice-subscribed channel
+	Sends   int    `json:"sends"`    // number of Sends (one sender goroutine) ...
+	Sends2  int    `json:"sends2"`   // ... and of a second, concurrent sender
+	UnsubAt [2]int `json:"unsub_at"` // the i-th subscription of the channel is unsubscribed around this send (> Sends: never)
+	Late2   bool   `json:"late2"`    // the second subscription is made while sends run
+}
+
+func genDup(r *vh.RNG) dupSched {
+	s := dupSched{Seed: r.Uint64(), Cap: []int{0, 1, 8}[r.Intn(3)], Sends: 2 + r.Intn(3), Sends2: r.Intn(3), Late2: r.Chance(25)}
+	s.UnsubAt = [2]int{r.Intn(s.Sends + 2), r.Intn(s.Sends + 2)}
+	return s
+}
+
+func dupPart(c *vh.Ctx, m *vh.Model) {
+	n := c.Scale(400, 8000)
+	var scheds []dupSched
 	for i := 0; i < n; i++ {
-		seed := c.Rng.Uint64()
-		capA := []int{0, 1, 8}[c.Rng.Intn(3)]
-		nsend := 2 + c.Rng.Intn(3)
-		unsubAt := c.Rng.Intn(nsend + 1) // the first subscription of the duplicated channel is unsubscribed around this send
-		what, hist := runDup(seed, capA, nsend, unsubAt)
-		c.Eval(fmt.Sprintf("feed/duplicate-subscription/cap=%d", capA), fmt.Sprint(seed))
-		if what != "" {
-			sig := "dup-subscription"
-			if what == "deadlock" {
-				sig = "deadlock"
+		scheds = append(scheds, genDup(c.Rng))
+	}
+	type res struct {
+		evs  []event.VerifEvent
+		dead string
+	}
+	results := make([]res, n)
+	var wg sync.WaitGroup
+	next := make(chan int)
+	for w := 0; w < 6; w++ {
+		wg.Add(1)
+		go func() {
+			defer wg.Done()
+			for i := range next {
+				evs, dead := runDup(scheds[i])
+				results[i] = res{evs, dead}
 			}
-			c.Violate(sig, "channel subscribed twice: "+what, map[string]interface{}{"seed": seed, "cap": capA, "sends": nsend, "unsub_at": unsubAt, "history": hist})
+		}()
+	}
+	for i := range scheds {
+		next <- i
+	}
+	close(next)
+	wg.Wait()
+	var reqs []string
+	var idx []int
+	for i, r := range results {
+		s := scheds[i]
+		class := fmt.Sprintf("feed/duplicate-subscription/cap=%d/late2=%v/senders=%d", s.Cap, s.Late2, 1+btoi(s.Sends2 > 0))
+		if r.dead != "" {
+			c.Eval(class, "")
+			c.Violate("deadlock", "channel subscribed twice: no progress", map[string]interface{}{"dup_schedule": s, "trace": evText(r.evs), "goroutines": r.dead})
+			continue
+		}
+		ls, err := translate(schedule{Chans: []chanSpec{{ID: 1, Cap: s.Cap}, {ID: 2, Cap: 8}}}, r.evs)
+		if err != "" {
+			c.Fatal("dup translate: %s", err)
+		}
+		c.Eval(class, strings.Join(ls, " "))
+		reqs = append(reqs, "drun "+strings.Join(ls, " "))
+		idx = append(idx, i)
+	}
+	answers := m.AskAll(reqs)
+	for k, i := range idx {
+		observed, what := dupOracle(results[i].evs)
+		c.Correspond("Feed(channel subscribed twice)~DupLTS.drun", reqs[k], observed, answers[k])
+		if what != "" {
+			c.Violate("dup-subscription", "channel subscribed twice: "+what, map[string]interface{}{"dup_schedule": scheds[i], "history": evText(results[i].evs)})
 		}
 	}
 }
 
-func runDup(seed uint64, capA, nsend, unsubAt int) (string, []string) {
+func btoi(b bool) int {
+	if b {
+		return 1
+	}
+	return 0
+}
+
+func runDup(s dupSched) ([]event.VerifEvent, string) {
 	feed := new(event.Feed)
-	tr := event.VerifAttach(feed, seed, 40, 5) // only for the seeded yields at the synchronisation points
-	defer event.VerifDetach(feed)
-	rng := vh.NewRNG(seed)
+	tr := event.VerifAttach(feed, s.Seed, 40, 5)
+	rng := vh.NewRNG(s.Seed)
 	var rmu sync.Mutex
-	a, b := make(chan int, capA), make(chan int, 8)
+	a, b := make(chan int, s.Cap), make(chan int, 8)
 	tr.RegisterChan(a, 1)
 	tr.RegisterChan(b, 2)
-	var mu sync.Mutex
-	var hist []string
-	rec := func(f string, x ...interface{}) int {
-		mu.Lock()
-		defer mu.Unlock()
-		hist = append(hist, fmt.Sprintf(f, x...))
-		return len(hist) - 1
-	}
-	subA1 := feed.Subscribe(a)
-	subA2 := feed.Subscribe(a)
-	subB := feed.Subscribe(b)
-	defer subB.Unsubscribe()
-	defer subA2.Unsubscribe()
-	gotA, gotB := map[int]int{}, map[int]int{}
 	quit := make(chan struct{})
-	var wg sync.WaitGroup
-	reader := func(ch chan int, got map[int]int, name string) {
-		defer wg.Done()
+	var wgR, wgW sync.WaitGroup
+	reader := func(ch chan int, id int) {
+		defer wgR.Done()
 		for {
+			tr.Record("recv_begin", id, 0)
 			select {
 			case v := <-ch:
-				mu.Lock()
-				got[v]++
-				mu.Unlock()
-				rec("recv %s %d", name, v)
+				tr.Record("recv_end", id, v)
 			case <-quit:
 				for {
 					select {
 					case v := <-ch:
-						mu.Lock()
-						got[v]++
-						mu.Unlock()
+						tr.Record("recv_end", id, v)
+						tr.Record("recv_begin", id, 0)
 					default:
 						return
 					}
@@ -83,66 +128,157 @@ func runDup(seed uint64, capA, nsend, unsubAt int) (string, []string) {
 			}
 		}
 	}
-	wg.Add(2)
-	go reader(a, gotA, "a")
-	go reader(b, gotB, "b")
-	type sendRec struct{ call, ret, n int }
-	sends := make([]sendRec, nsend+1)
-	unCall, unRet := -1, -1
-	done := make(chan struct{})
-	go func() {
-		defer close(done)
-		var uw sync.WaitGroup
-		for id := 1; id <= nsend; id++ {
-			if id-1 == unsubAt {
-				uw.Add(1)
-				go func() {
-					defer uw.Done()
-					pause(rng, &rmu, 2)
-					unCall = rec("unsub a#1 call")
-					subA1.Unsubscribe()
-					unRet = rec("unsub a#1 ret")
-				}()
+	subscribe := func(ch chan int, id int) event.Subscription {
+		tr.Record("sub_call", id, 0)
+		sub := feed.Subscribe(ch)
+		tr.Record("sub_ret", id, 0)
+		return sub
+	}
+	subs := [2]event.Subscription{}
+	subs[0] = subscribe(a, 1)
+	if !s.Late2 {
+		subs[1] = subscribe(a, 1)
+	}
+	subscribe(b, 2)
+	wgR.Add(2)
+	go reader(a, 1)
+	go reader(b, 2)
+	var smu sync.Mutex
+	unsub := func(i int) {
+		defer wgW.Done()
+		pause(rng, &rmu, 2)
+		smu.Lock()
+		sub := subs[i]
+		smu.Unlock()
+		if sub == nil {
+			return
+		}
+		tr.Record("unsub_call", 1, 0)
+		sub.Unsubscribe()
+		tr.Record("unsub_ret", 1, 0)
+	}
+	sender := func(first, n int) {
+		defer wgW.Done()
+		for id := first; id < first+n; id++ {
+			for i := 0; i < 2; i++ {
+				if first == 1 && id-1 == s.UnsubAt[i] {
+					wgW.Add(1)
+					go unsub(i)
+				}
 			}
 			pause(rng, &rmu, 1)
-			sends[id].call = rec("send %d call", id)
+			tr.Record("send_call", id, 0)
 			n := feed.Send(id)
-			sends[id].n = n
-			sends[id].ret = rec("send %d ret %d", id, n)
+			tr.Record("send_ret", id, n)
 		}
-		if unsubAt == nsend {
-			unCall = rec("unsub a#1 call")
-			subA1.Unsubscribe()
-			unRet = rec("unsub a#1 ret")
-		}
-		uw.Wait()
-	}()
-	select {
-	case <-done:
-	case <-time.After(3 * time.Second):
+	}
+	wgW.Add(1)
+	go sender(1, s.Sends)
+	if s.Sends2 > 0 {
+		wgW.Add(1)
+		go sender(100, s.Sends2)
+	}
+	if s.Late2 {
+		wgW.Add(1)
+		go func() {
+			defer wgW.Done()
+			pause(rng, &rmu, 3)
+			sub := subscribe(a, 1)
+			smu.Lock()
+			subs[1] = sub
+			smu.Unlock()
+		}()
+	}
+	done := make(chan string)
+	go func() { wgW.Wait(); close(done) }()
+	if _, stuck := blocked(done, watchdogDup); stuck {
 		buf := make([]byte, 1<<15)
 		buf = buf[:runtime.Stack(buf, true)]
-		return "deadlock", append(hist, string(buf))
+		return event.VerifDetach(feed), string(buf)
 	}
 	close(quit)
-	wg.Wait()
-	for id := 1; id <= nsend; id++ {
-		s := sends[id]
-		lo, hi := 2, 2 // copies expected on channel a
-		if unRet >= 0 && unRet < s.call {
-			lo, hi = 1, 1
-		} else if unCall >= 0 && unCall < s.ret {
-			lo, hi = 1, 2
-		}
-		if gotA[id] < lo || gotA[id] > hi {
-			return fmt.Sprintf("Send(%d) delivered %d copies to the twice-subscribed channel, expected %d..%d", id, gotA[id], lo, hi), hist
-		}
-		if gotB[id] != 1 {
-			return fmt.Sprintf("Send(%d) delivered %d copies to the once-subscribed channel", id, gotB[id]), hist
-		}
-		if s.n != gotA[id]+gotB[id] {
-			return fmt.Sprintf("Send(%d) returned %d but %d values were received", id, s.n, gotA[id]+gotB[id]), hist
+	wgR.Wait()
+	return event.VerifDetach(feed), ""
+}
+
+// dupOracle evaluates the black-box statement on the history and renders the observables the model reports.
+func dupOracle(evs []event.VerifEvent) (observed string, what string) {
+	type send struct{ call, ret, n int }
+	sends := map[int]*send{}
+	var order []int
+	got := map[[2]int]int{}
+	seq := map[int][]string{}
+	var subRet, unCall, unRet []int // positions, channel 1
+	total := 0
+	for i, e := range evs {
+		switch e.Point {
+		case "send_call":
+			sends[e.Ch] = &send{call: i, ret: -1}
+			order = append(order, e.Ch)
+		case "send_ret":
+			sends[e.Ch].ret, sends[e.Ch].n = i, e.Arg
+		case "recv_end":
+			got[[2]int{e.Ch, e.Arg}]++
+			seq[e.Ch] = append(seq[e.Ch], fmt.Sprint(e.Arg))
+			total++
+		case "sub_ret":
+			if e.Ch == 1 {
+				subRet = append(subRet, i)
+			}
+		case "unsub_call":
+			unCall = append(unCall, i)
+		case "unsub_ret":
+			unRet = append(unRet, i)
 		}
 	}
-	return "", hist
+	var ns []string
+	sorted := append([]int(nil), order...)
+	for i := range sorted {
+		for j := i + 1; j < len(sorted); j++ {
+			if sorted[j] < sorted[i] {
+				sorted[i], sorted[j] = sorted[j], sorted[i]
+			}
+		}
+	}
+	for _, id := range sorted {
+		s := sends[id]
+		ns = append(ns, fmt.Sprintf("%d:%d", id, s.n))
+		// subscriptions of channel 1: made before the call / at some time before the return
+		before, ever := 0, 0
+		for _, p := range subRet {
+			if p < s.call {
+				before++
+			}
+		}
+		for _, e := range evs[:s.ret] {
+			if e.Point == "sub_call" && e.Ch == 1 {
+				ever++
+			}
+		}
+		calledBefore, returnedBefore := 0, 0
+		for _, p := range unCall {
+			if p < s.ret {
+				calledBefore++
+			}
+		}
+		for _, p := range unRet {
+			if p < s.call {
+				returnedBefore++
+			}
+		}
+		lo, hi := before-calledBefore, ever-returnedBefore
+		if lo < 0 {
+			lo = 0
+		}
+		if g := got[[2]int{1, id}]; what == "" && (g < lo || g > hi) {
+			what = fmt.Sprintf("Send(%d) delivered %d copies to the twice-subscribed channel, expected %d..%d", id, g, lo, hi)
+		}
+		if g := got[[2]int{2, id}]; what == "" && g != 1 {
+			what = fmt.Sprintf("Send(%d) delivered %d copies to the once-subscribed channel", id, g)
+		}
+		if what == "" && s.n != got[[2]int{1, id}]+got[[2]int{2, id}] {
+			what = fmt.Sprintf("Send(%d) returned %d but %d values were received", id, s.n, got[[2]int{1, id}]+got[[2]int{2, id}])
+		}
+	}
+	return fmt.Sprintf("accepted d=%d nsent=%s recv=1:%s;2:%s panicked=false", total, strings.Join(ns, ","), strings.Join(seq[1], "."), strings.Join(seq[2], ".")), what
 }
